@@ -329,7 +329,7 @@ def round_trip(ctx, rng):
         return
     # ... nor may the model made from it keep pieces of it
     ps = public_state(c)
-    if any(ps.get(a) != before.get(a) for a in ("terms", "name", "num_ancillas", "constraints")):
+    if any(ps.get(a) != before.get(a) for a in ("terms", "name", "num_ancillas", "constraints", "mapping", "reverse_mapping")):
         ctx.violation("create_from_info:aliases-info", "mutating the info dict afterwards changed the model created from it", w)
         return
     if len(m) >= 2:
@@ -473,6 +473,9 @@ def aliasing(ctx, rng):
         # a normalisation that has nothing to do (the largest magnitude already is the requested value) still hands out a new object
         mx_ = max(abs(v) for v in m.values())
         handed["normalize"] = L.utils.normalize(m, mx_)
+    # operators that change nothing still hand out a new object
+    handed["arith.power-one"] = m ** 1
+    handed["arith.times-one"] = m * 1
     for a in ("mapping", "reverse_mapping", "constraints"):
         if hasattr(m, a):
             handed[a] = getattr(m, a)
@@ -483,13 +486,13 @@ def aliasing(ctx, rng):
             if public_state(obj) != before:
                 ctx.violation("%s:differs-from-original" % name, "%s(): %r vs %r" % (name, public_state(obj), before), w)
                 return
-        if name in ("copy", "ctor", "subs", "round", "deepcopy", "normalize") or name.startswith("sat."):
+        if name in ("copy", "ctor", "subs", "round", "deepcopy", "normalize") or name.startswith("sat.") or name.startswith("arith."):
             if obj is m:
                 ctx.violation("%s:returns-the-same-object" % name, "%s returned the model itself" % name, w)
                 return
             # (name and an un-refreshed mapping are not part of what a copy must reproduce)
             ps = public_state(obj)
-            if name != "normalize" and not name.startswith("sat.") and any(ps.get(a) != before.get(a) for a in ("type", "terms", "constraints", "num_ancillas")):
+            if name != "normalize" and not name.startswith("sat.") and not name.startswith("arith.") and any(ps.get(a) != before.get(a) for a in ("type", "terms", "constraints", "num_ancillas")):
                 ctx.violation("%s:differs-from-original" % name, "%s(): %r vs %r" % (name, ps, before), w)
                 return
             obj[junk_key] = 3
